@@ -330,6 +330,10 @@ PROPS["C10"] = {
            J("pool-asan", "poolfuzz", "asan", 1, 100, 5000, timeout=120), J("pool-static-asan", "poolfuzz", "asan", 2, 60, 3000),
            J("stat-order-asan", "statcheck", "asan", 2, 400, 20000, timeout=120), J("stat-hist-asan", "statcheck", "asan", 3, 300, 10000),
            J("stat-sum-asan", "statcheck", "asan", 0, 200, 5000), J("coro-asan", "corofuzz", "asan", 0, 300, 10000)]
+        + [J("sf-directed-event-waiters-asan", "simfuzz", "asan", 100, 600, 2730, timeout=120),
+           J("sf-directed-event-waiters-rel", "simfuzz", "rel", 100, 600, 2730),
+           J("sf-directed-tag-pools-asan", "simfuzz", "asan", 101, 2, 8, timeout=300),
+           J("sf-directed-tag-pools-rel", "simfuzz", "rel", 101, 2, 8, timeout=300)]
         + [J("sf-mixed-memcheck", "simfuzz", "rel", 11, 64, 2000, timeout=600, extra=_VG, chunk=4),
            J("sf-growth-memcheck", "simfuzz", "rel", 10, 32, 1000, timeout=600, extra=_VG, chunk=2),
            J("stat-order-memcheck", "statcheck", "rel", 2, 32, 1000, timeout=600, extra=_VG, chunk=2),
@@ -342,7 +346,8 @@ PROPS["C10"] = {
              "every abnormal end of a child (signal, library assert, sanitizer or memcheck report, hang) is a violation key; the generators' "
              "validity rules (DESIGN.md appendix A) are the argument that the program was valid; distinct = engine case fingerprints"),
     "headline": ["events_executed", "processes", "wide_worlds", "max_event_queue_capacity", "max_waiting_list_length", "waiting_list_beyond_initial_capacity",
-                 "reports_printed", "queue_growths", "growths", "expansions", "max_chunks", "copies_mutated", "probed_switches", "plain_events_executed"],
+                 "reports_printed", "queue_growths", "growths", "expansions", "max_chunks", "copies_mutated", "probed_switches", "plain_events_executed",
+                 "directed_event_waiter_cases", "directed_event_waiters", "directed_tag_pool_cases", "directed_timers_armed", "directed_objects_queued"],
     "min_observed": {"quick": {"events_executed": 100000, "waiting_list_beyond_initial_capacity": 100, "reports_printed": 200, "copies_mutated": 500, "expansions": 1000}},
     "assumptions": ["a program generated under the validity rules of DESIGN.md appendix A is a valid program; an abort caused by the harness breaking a "
                     "precondition is a harness bug, not a finding",
